@@ -82,6 +82,12 @@ class RefDrive402:
         """drive-internal fault (transition 13)"""
         self.enter(FRA)
 
+    def restart(self):
+        """power cycle behind the master's back: the controlword register is cleared, the drive comes up through
+        NOT READY TO SWITCH ON into SWITCH ON DISABLED on its own"""
+        self.cw = 0
+        self.enter(NRTSO)
+
     def send_tpdo(self):
         data = self.statusword().to_bytes(2, "little")
         if self.map_mode == 1:
@@ -213,3 +219,20 @@ class RefDrive402:
         elif can_id == self.rpdo2_cob and self.transport != "sdo" and self.map_mode == 2:
             if len(data) >= 1:
                 self._mode_by_pdo(int.from_bytes(data[0:1], "little", signed=True))
+
+
+# CiA 402 "modes of operation" (object 0x6060) and the bit of "supported drive modes" (0x6502) that advertises each:
+# mode n (n >= 1) is advertised by bit n-1; 'no mode' (0) needs no bit.  Written from the standard, not taken from the library.
+MODE_CODES = {
+    "NO MODE": 0,
+    "PROFILED POSITION": 1,
+    "VELOCITY": 2,
+    "PROFILED VELOCITY": 3,
+    "PROFILED TORQUE": 4,
+    "HOMING": 6,
+    "INTERPOLATED POSITION": 7,
+    "CYCLIC SYNCHRONOUS POSITION": 8,
+    "CYCLIC SYNCHRONOUS VELOCITY": 9,
+    "CYCLIC SYNCHRONOUS TORQUE": 10,
+}
+MODE_SUPPORT_BIT = {name: (0 if code == 0 else 1 << (code - 1)) for name, code in MODE_CODES.items()}
